@@ -248,6 +248,65 @@ def native_replay(cfg, name, vals):
 
 
 # ---------------------------------------------------------------------------
+# engine R: native evaluation of the contracts on sampled states
+# ---------------------------------------------------------------------------
+
+def run_native(obls, tier, seed, results):
+    from concurrent.futures import ThreadPoolExecutor
+    bins = {}
+    for cfg in sorted(set(c for o in obls for c in o['cfgs'])):
+        b, err = build_replay_bin(cfg)
+        bins[cfg] = (b, err)
+    jobs = []
+    for o in obls:
+        for cfg in o['cfgs']:
+            jobs.append((o, cfg))
+
+    def one(job):
+        o, cfg = job
+        oid = 'r:%s:%s' % (o['name'], cfg)
+        b, err = bins[cfg]
+        base = dict(engine='native', cfg=cfg, name=o['name'], label='R', desc=o['desc'], fns=o['fns'], cached=False,
+                    bound='sampled abstract states; table size and width in the obligation name')
+        if not b:
+            base.update(status='undecided', reason='native driver does not build against this tree: ' + err[-800:])
+            return oid, base
+        iters = o['thorough_iters'] if tier == 'thorough' else o['quick_iters']
+        sd = 0x5EED + int(seed)
+        t0 = time.time()
+        try:
+            p = subprocess.run([b, '--sample', o['name'], str(sd), str(iters)], capture_output=True, text=True, timeout=3600)
+        except subprocess.TimeoutExpired:
+            base.update(status='fail', failed=[dict(desc='sampled evaluation did not terminate within 3600 s (possible non-termination in the code under test)')],
+                        duration_s=3600)
+            return oid, base
+        out = p.stdout + p.stderr
+        m = re.search(r'evaluated=(\d+) discarded=(\d+) breaches=(\d+)', out)
+        base['duration_s'] = time.time() - t0
+        if m:
+            base['evaluated'] = int(m.group(1))
+            base['discarded'] = int(m.group(2))
+        if p.returncode == 0 and m and int(m.group(3)) == 0:
+            if int(m.group(1)) == 0:
+                base.update(status='undecided', reason='vacuity guard: no sampled input met the precondition')
+            else:
+                base['status'] = 'pass'
+        elif p.returncode == 3:
+            base.update(status='undecided', reason='obligation unknown to the native driver')
+        else:
+            bm = re.search(r'BREACH: (.*) \(iteration (\d+) sample-seed (\d+)\)', out)
+            if bm:
+                base.update(status='fail', failed=[dict(desc=bm.group(1))], sample_seed=int(bm.group(3)), iteration=int(bm.group(2)))
+            else:
+                base.update(status='fail', failed=[dict(desc='native run of the real code crashed (signal / abort): ' + out[-400:])], crashed=True)
+        return oid, base
+
+    with ThreadPoolExecutor(max_workers=max(2, NCPU - 2)) as ex:
+        for oid, r in ex.map(one, jobs):
+            results[oid] = r
+
+
+# ---------------------------------------------------------------------------
 # Verus
 # ---------------------------------------------------------------------------
 
@@ -413,6 +472,9 @@ def check_property(prop, tier, seed=0):
             th = threading.Thread(target=run_kani_cfg, args=(cfg, obls, results, key))
             th.start()
             threads.append(th)
+    nobls = registry.native_for(prop, tier)
+    if nobls:
+        run_native(nobls, tier, seed, results)
     for th in threads:
         th.join()
 
@@ -451,7 +513,17 @@ def check_property(prop, tier, seed=0):
         rec = dict(property=prop, obligation=oid, engine=r['engine'], description=r.get('desc'), failed=r.get('failed'),
                    repo=REPO, tree_key=key)
         suffix = ''
-        if r['engine'] == 'kani':
+        if r['engine'] == 'native':
+            rec['harness'] = r['name']
+            rec['cfg'] = r['cfg']
+            rec['sample_seed'] = r.get('sample_seed')
+            if r.get('sample_seed') is not None:
+                binp, _ = build_replay_bin(r['cfg'])
+                p = subprocess.run([binp, '--one', r['name'], str(r['sample_seed'])], capture_output=True, text=True)
+                rec['native_replay'] = dict(ran=True, reproduced=p.returncode != 0, outcome=(p.stdout + p.stderr).strip()[-600:])
+            else:
+                rec['native_replay'] = dict(ran=True, reproduced=True, outcome=(r.get('failed') or [{}])[0].get('desc'))
+        elif r['engine'] == 'kani':
             o = registry.KANI[r['name']]
             vals, err = kani_playback(r['cfg'], o)
             if vals is None:
@@ -539,6 +611,8 @@ def write_evidence(prop, tier, seed, results, key, wall, n_viol, undecided):
         if r['engine'] == 'kani':
             s.update(cbmc_properties=r.get('n_checks'), contract_clauses=r.get('named_samples'), solver_s=r.get('solver_s'),
                      symex_s=r.get('symex_s'), wall_s=r.get('duration_s'), bound=r.get('bound'), covers_satisfied=r.get('covers_sat'))
+        elif r['engine'] == 'native':
+            s.update(sampled_states_evaluated=r.get('evaluated'), discarded_by_precondition=r.get('discarded'), wall_s=r.get('duration_s'), cfg=r.get('cfg'))
         else:
             s.update(function=r.get('name'), kind=r.get('kind'), smt_ms=r.get('time_ms'), rlimit=r.get('rlimit'),
                      discharged_by=r.get('discharged_by'))
@@ -560,6 +634,7 @@ def write_evidence(prop, tier, seed, results, key, wall, n_viol, undecided):
     n = len(results)
     npass = sum(1 for r in results.values() if r['status'] == 'pass')
     all_pc = all(r['label'] in ('P', 'C') for r in results.values()) and n > 0
+    sampled = sum(r.get('evaluated') or 0 for r in results.values() if r['engine'] == 'native')
     level = 'proof' if all_pc else 'other'
     bounds = sorted(set('%s: %s' % (r['name'], r['bound']) for r in results.values() if r.get('bound')))
     trusted = [
@@ -573,10 +648,12 @@ def write_evidence(prop, tier, seed, results, key, wall, n_viol, undecided):
         obligations=n, discharged=npass,
         by_label=by_label,
         label_meaning=dict(P='proved: Verus, all inputs, unbounded', C='complete: CBMC over the full finite machine domain, loop-free or structurally bounded',
-                           B='bounded-inductive: CBMC from every abstract state of a table with the stated bucket count; NOT counted as proved'),
+                           B='bounded-inductive: CBMC from every abstract state of a table with the stated bucket count; NOT counted as proved',
+                           R='runtime: the same contracts evaluated natively on sampled abstract states (stand-in where CBMC symbolic execution does not terminate; the only engine that unwinds); NOT counted as proved'),
         checker_cmd='bin/check %s --tier %s  (verus <unit>.rs --output-json; cargo kani -Z function-contracts --exact --harness ...)' % (prop, tier),
         trusted_base=trusted,
         cbmc_properties_checked=total_checks,
+        sampled_states_evaluated=sampled,
         functions_under_contract=sorted(fns.values(), key=lambda e: e['function']),
         bounds=bounds,
         rewrite_rule_hits=rewrite,
@@ -600,6 +677,11 @@ def write_evidence(prop, tier, seed, results, key, wall, n_viol, undecided):
 def replay_file(path):
     """Re-run a recorded counterexample natively against the current /repo."""
     rec = json.load(open(path))
+    if rec.get('sample_seed') is not None:
+        binp, err = build_replay_bin(rec['cfg'])
+        p = subprocess.run([binp, '--one', rec['harness'], str(rec['sample_seed'])], capture_output=True, text=True)
+        print((p.stdout + p.stderr).strip())
+        return 1 if p.returncode != 0 else 0
     if 'concrete_vals' not in rec:
         print('replay file carries no concrete input (verifier output only):')
         print(json.dumps(rec.get('verifier_output') or rec.get('failed'), indent=1)[:3000])
